@@ -193,6 +193,16 @@ PSpec == PInit /\ [][PNextD]_allvars /\ WF_allvars(PNext)
 \* termination: every behaviour reaches "done" (PassBound says how soon the loop ends)
 Terminates == <>(pc = "done")
 PassBound == passes <= Cardinality(MansOf(content)) + 1
+\* ... as a safety property (TLC's liveness checker is slow with one initial state per content): a natural
+\* number that every step decreases; with no deadlock short of "done" every behaviour ends there
+PushBudget == Cardinality(content.blobs) + Cardinality(MansOf(content)) + Cardinality(DOMAIN content.tags) + 1
+Measure ==
+  LET nm == Cardinality(MansOf(content)) IN
+  CASE pc = "complete" -> (nm + 1 - passes) * (nm + 1) + Cardinality(todo) + 1 + PushBudget
+    [] pc = "push" -> Cardinality(bleft) + (Len(seq) + 1 - mi) + Cardinality(tleft) + 1
+    [] OTHER -> 0
+MeasureNat == Measure >= 0
+Decreases == [][Measure' < Measure]_allvars
 
 \* every manifest is computed (hence pushed) after its subject
 IndexIn(s, x) == CHOOSE i \in 1..Len(s) : s[i] = x
